@@ -1,7 +1,517 @@
-//! (stub) driver module - see tools/HOWTO.md
-use crate::util::Args;
+//! Terminal driver (C01, C03, C09, C10 and the readers of C04/C15): feeds byte streams, one character at a time,
+//! to the real text-mode emulations attached to a terminal buffer and records one event per character.
+//!
+//! Case file (ndjson, `--cases`): {"id":..,"emu":"ansi|avatar|pcboard|ctrla|renegade|petscii|atascii|viewdata|mode7|ascii",
+//!   "music":0..3,"w":..,"h":..,"alloc":0|1,"bs":0|1,"proj":"geo|full","bytes":[..]}
+//! or built-in seeded generators (`--gen N`).  Crash containment: a panic is caught per character; aborts, stack
+//! overflows and hangs kill this process - the orchestrator (tools/vlib.py run_worker) sees which case was running from
+//! the progress file, records a `crash` event and restarts the driver after that case.
+use crate::util::{guard, panic_site, rng, Args, Out};
+use icy_engine::{ansi, ascii, atascii, avatar, ctrla, mode7, pcboard, petscii, renegade, viewdata, Buffer, BufferParser, CallbackAction, Caret, TextPane};
+use rand::rngs::StdRng;
+use rand::Rng;
+use serde_json::{json, Value};
+use std::io::Write;
+use std::sync::atomic::{AtomicU64, Ordering};
+use std::sync::Arc;
+use std::time::{Duration, Instant};
 
-pub fn term(_a: &Args) {
-    eprintln!("term: driver not built yet");
-    std::process::exit(2);
+pub const EMUS: [&str; 10] = ["ansi", "avatar", "pcboard", "ctrla", "renegade", "petscii", "atascii", "viewdata", "mode7", "ascii"];
+
+pub fn make_parser(emu: &str, music: u64, bs: bool) -> Box<dyn BufferParser> {
+    match emu {
+        "ansi" => {
+            let mut p = ansi::Parser::default();
+            p.ansi_music = match music { 1 => ansi::MusicOption::Conflicting, 2 => ansi::MusicOption::Banana, 3 => ansi::MusicOption::Both, _ => ansi::MusicOption::Off };
+            p.bs_is_ctrl_char = bs;
+            Box::new(p)
+        }
+        "avatar" => Box::<avatar::Parser>::default(),
+        "pcboard" => Box::<pcboard::Parser>::default(),
+        "ctrla" => Box::<ctrla::Parser>::default(),
+        "renegade" => Box::<renegade::Parser>::default(),
+        "petscii" => Box::<petscii::Parser>::default(),
+        "atascii" => Box::<atascii::Parser>::default(),
+        "viewdata" => Box::<viewdata::Parser>::default(),
+        "mode7" => Box::<mode7::Parser>::default(),
+        _ => Box::<ascii::Parser>::default(),
+    }
+}
+
+pub fn make_buffer(w: i32, h: i32, alloc: bool) -> Buffer {
+    let mut buf = Buffer::create((w, h));
+    buf.is_terminal_buffer = true;
+    if !alloc {
+        buf.layers[0].lines.clear();
+    }
+    buf
+}
+
+fn action_name(a: &CallbackAction) -> (&'static str, Option<Vec<u8>>) {
+    match a {
+        CallbackAction::Update => ("Update", None),
+        CallbackAction::NoUpdate => ("NoUpdate", None),
+        CallbackAction::Beep => ("Beep", None),
+        CallbackAction::SendString(s) => ("SendString", Some(s.chars().map(|c| (c as u32).min(255) as u8).collect())),
+        CallbackAction::PlayMusic(_) => ("PlayMusic", None),
+        CallbackAction::ChangeBaudEmulation(_) => ("ChangeBaud", None),
+        CallbackAction::ResizeTerminal(_, _) => ("Resize", None),
+        CallbackAction::Pause(_) => ("Pause", None),
+    }
+}
+
+fn cell_json(c: &icy_engine::AttributedChar) -> Value {
+    json!([c.ch as u32, c.attribute.get_foreground(), c.attribute.get_background(), c.attribute.attr, c.attribute.get_font_page()])
+}
+
+/// Snapshot of what is compared between steps to find changed rows.
+struct Snap {
+    lens: Vec<usize>,
+    rows: Vec<Vec<icy_engine::AttributedChar>>,
+    tabs: Vec<i32>,
+}
+
+fn snap(buf: &Buffer, full: bool) -> Snap {
+    let l = &buf.layers[0];
+    Snap {
+        lens: l.lines.iter().map(|x| x.chars.len()).collect(),
+        rows: if full { l.lines.iter().map(|x| x.chars.clone()).collect() } else { vec![] },
+        tabs: buf.terminal_state.get_tabs().to_vec(),
+    }
+}
+
+fn state_event(buf: &Buffer, caret: &Caret, prev: &Snap, cur: &Snap, full: bool, first: bool) -> Value {
+    let ts = &buf.terminal_state;
+    let l = &buf.layers[0];
+    let pos = caret.get_position();
+    let at = caret.get_attribute();
+    let mut v = json!({
+        "cx": pos.x, "cy": pos.y, "tw": ts.get_width(), "th": ts.get_height(), "bw": buf.get_width(), "bh": buf.get_height(),
+        "lw": l.get_width(), "lh": l.get_height(), "nl": l.lines.len(), "fv": buf.get_first_visible_line(),
+        "mtb": ts.get_margins_top_bottom().map(|(a, b)| vec![a, b]).unwrap_or_default(),
+        "mlr": ts.get_margins_left_right().map(|(a, b)| vec![a, b]).unwrap_or_default(),
+        "aw": matches!(ts.auto_wrap_mode, icy_engine::AutoWrapMode::AutoWrap) as u8,
+        "om": matches!(ts.origin_mode, icy_engine::OriginMode::WithinMargins) as u8,
+        "dm": ts.dec_margin_mode_left_right as u8,
+        "im": caret.insert_mode as u8, "vis": caret.is_visible() as u8, "ice": caret.ice_mode() as u8,
+        "ca": [at.get_foreground(), at.get_background(), at.attr, at.get_font_page()],
+        "pal": buf.palette.len(), "ps": buf.sixel_threads.len(), "ls": l.sixels.len(), "hl": l.hyperlinks().len(),
+    });
+    // rows whose length (or, in full projection, content) changed
+    let mut ll = vec![];
+    let mut rows = vec![];
+    for y in 0..cur.lens.len() {
+        let changed_len = first || y >= prev.lens.len() || prev.lens[y] != cur.lens[y];
+        if changed_len {
+            ll.push(json!([y, cur.lens[y]]));
+        }
+        if full {
+            let changed = first || y >= prev.rows.len() || prev.rows[y].len() != cur.rows[y].len() || prev.rows[y].iter().zip(cur.rows[y].iter()).any(|(a, b)| a != b || a.get_font_page() != b.get_font_page());
+            if changed {
+                rows.push(json!([y, cur.rows[y].iter().map(cell_json).collect::<Vec<_>>()]));
+            }
+        }
+    }
+    v["ll"] = Value::Array(ll);
+    if full {
+        v["rows"] = Value::Array(rows);
+    }
+    if first || prev.tabs != cur.tabs {
+        v["tabs"] = json!(cur.tabs);
+    }
+    v
+}
+
+pub struct Case {
+    pub id: String,
+    pub emu: String,
+    pub music: u64,
+    pub w: i32,
+    pub h: i32,
+    pub alloc: bool,
+    pub bs: bool,
+    pub full: bool,
+    pub bytes: Vec<u8>,
+    pub toks: Vec<usize>, // optional token boundaries (indices into bytes where a token ends), informational
+}
+
+impl Case {
+    pub fn from_json(v: &Value) -> Case {
+        Case {
+            id: v["id"].as_str().map(str::to_string).unwrap_or_else(|| v["id"].to_string()),
+            emu: v["emu"].as_str().unwrap_or("ansi").to_string(),
+            music: v["music"].as_u64().unwrap_or(0),
+            w: v["w"].as_i64().unwrap_or(80) as i32,
+            h: v["h"].as_i64().unwrap_or(25) as i32,
+            alloc: v["alloc"].as_u64().unwrap_or(1) != 0 || v["alloc"].as_bool().unwrap_or(false),
+            bs: v["bs"].as_u64().unwrap_or(0) != 0,
+            full: v["proj"].as_str().unwrap_or("geo") == "full",
+            bytes: v["bytes"].as_array().map(|a| a.iter().map(|x| x.as_u64().unwrap_or(0) as u8).collect()).unwrap_or_default(),
+            toks: vec![],
+        }
+    }
+    pub fn to_json(&self) -> Value {
+        json!({"id": self.id, "emu": self.emu, "music": self.music, "w": self.w, "h": self.h, "alloc": self.alloc as u8, "bs": self.bs as u8,
+               "proj": if self.full { "full" } else { "geo" }, "bytes": self.bytes})
+    }
+}
+
+/// Run one case; events are appended to `evs`.  Returns the number of characters fed.
+pub fn run_case(c: &Case, evs: &mut Vec<Value>, step_clock: Option<&AtomicU64>) -> usize {
+    let mut buf = make_buffer(c.w, c.h, c.alloc);
+    let mut caret = Caret::default();
+    let mut parser = make_parser(&c.emu, c.music, c.bs);
+    let s0 = snap(&buf, c.full);
+    let mut reset = json!({"ev":"reset","case":c.id,"emu":c.emu,"music":c.music,"w":c.w,"h":c.h,"alloc":c.alloc as u8,"bs":c.bs as u8,"proj": if c.full {"full"} else {"geo"}, "n": c.bytes.len()});
+    let st0 = state_event(&buf, &caret, &s0, &s0, c.full, true);
+    for (k, v) in st0.as_object().unwrap() {
+        reset[k] = v.clone();
+    }
+    evs.push(reset);
+    let mut prev = s0;
+    let mut fed = 0;
+    for (i, &b) in c.bytes.iter().enumerate() {
+        if let Some(clk) = step_clock {
+            clk.fetch_add(1, Ordering::Relaxed);
+        }
+        let t0 = Instant::now();
+        let res = guard(|| parser.print_char(&mut buf, 0, &mut caret, b as char));
+        let us = t0.elapsed().as_micros() as u64;
+        fed += 1;
+        let (r, a, s, site, msg) = match &res {
+            Ok(Ok(act)) => { let (n, s) = action_name(act); ("ok", n, s, None, None) }
+            Ok(Err(e)) => ("err", "None", None, None, Some(e.to_string())),
+            Err(p) => ("panic", "None", None, Some(panic_site(p)), Some(p.msg.clone())),
+        };
+        let cur = snap(&buf, c.full);
+        let mut ev = state_event(&buf, &caret, &prev, &cur, c.full, false);
+        ev["ev"] = json!("ch");
+        ev["i"] = json!(i);
+        ev["c"] = json!(b);
+        ev["r"] = json!(r);
+        ev["a"] = json!(a);
+        if let Some(s) = s { ev["s"] = json!(s); }
+        if let Some(s) = site { ev["site"] = json!(s); }
+        if let Some(m) = msg { if r == "panic" { ev["msg"] = json!(m.chars().take(120).collect::<String>()); } }
+        if us > 200_000 { ev["us"] = json!(us); }
+        evs.push(ev);
+        prev = cur;
+        if r == "panic" {
+            // the property is already violated; the emulation's state after an unwound panic is not meaningful
+            break;
+        }
+    }
+    fed
+}
+
+// ------------------------------------------------------------------------------------------------ generators
+fn pick<T: Copy>(r: &mut StdRng, s: &[T]) -> T {
+    s[r.gen_range(0..s.len())]
+}
+
+fn push_num(v: &mut Vec<u8>, n: i64) {
+    v.extend(n.to_string().as_bytes());
+}
+
+/// parameter value classes of DESIGN Appendix B
+fn param(r: &mut StdRng, w: i32, h: i32, big: bool) -> Option<i64> {
+    let size = if r.gen_bool(0.5) { w } else { h } as i64;
+    match r.gen_range(0..if big { 14 } else { 11 }) {
+        0 => None,
+        1 => Some(0),
+        2 | 3 => Some(1),
+        4 => Some(2),
+        5 => Some((size / 2).max(1)),
+        6 => Some((size - 1).max(0)),
+        7 => Some(size),
+        8 => Some(size + 1),
+        9 => Some(r.gen_range(0..12)),
+        10 => Some(r.gen_range(0..300)),
+        11 => Some(9999),
+        12 => Some(65536),
+        _ => Some(99_999_999_999),
+    }
+}
+
+fn csi(r: &mut StdRng, w: i32, h: i32, big: bool, out: &mut Vec<u8>) {
+    out.extend(b"\x1b[");
+    let inter = match r.gen_range(0..16) { 0 => b"?".as_slice(), 1 => b"=", 2 => b"!", 3 => b"<", _ => b"" };
+    out.extend(inter);
+    let np = match r.gen_range(0..10) { 0..=2 => 0, 3..=6 => 1, 7 | 8 => 2, _ => r.gen_range(3..7) };
+    for k in 0..np {
+        if k > 0 { out.push(b';'); }
+        if let Some(p) = param(r, w, h, big) { push_num(out, p); }
+    }
+    match r.gen_range(0..12) { 0 => out.push(b' '), 1 => out.push(b'$'), 2 => out.push(b'*'), _ => {} }
+    let fin = if r.gen_bool(0.85) {
+        pick(r, b"@ABCDEFGHJKLMPSTXYZabcdefghjklmnrstuz~'xyw{|N")
+    } else {
+        r.gen_range(0x40..0x7Fu8)
+    };
+    out.push(fin);
+}
+
+fn sgr(r: &mut StdRng, out: &mut Vec<u8>) {
+    out.extend(b"\x1b[");
+    let n = r.gen_range(0..4);
+    for k in 0..n {
+        if k > 0 { out.push(b';'); }
+        match r.gen_range(0..10) {
+            0 => push_num(out, r.gen_range(0..10)),
+            1 => push_num(out, r.gen_range(21..30)),
+            2 => push_num(out, r.gen_range(30..50)),
+            3 => push_num(out, r.gen_range(90..108)),
+            4 => { push_num(out, if r.gen_bool(0.5) { 38 } else { 48 }); out.extend(b";5;"); push_num(out, r.gen_range(0..300)); }
+            5 => { push_num(out, if r.gen_bool(0.5) { 38 } else { 48 }); out.extend(b";2;"); push_num(out, r.gen_range(0..300)); out.push(b';'); push_num(out, r.gen_range(0..256)); if r.gen_bool(0.8) { out.push(b';'); push_num(out, r.gen_range(0..256)); } }
+            6 => { push_num(out, if r.gen_bool(0.5) { 38 } else { 48 }); if r.gen_bool(0.5) { out.extend(b";5"); } }
+            7 => push_num(out, r.gen_range(50..60)),
+            8 => push_num(out, r.gen_range(0..200)),
+            _ => {}
+        }
+    }
+    out.push(b'm');
+}
+
+fn strings(r: &mut StdRng, out: &mut Vec<u8>) {
+    match r.gen_range(0..22) {
+        0 => out.extend(b"\x1bP0;0;0!zAB\x1b[1mC\x1b\\"),                       // macro definition, text
+        1 => out.extend(b"\x1bP1;0;1!z414243\x1b\\"),                         // hex macro
+        2 => out.extend(b"\x1bP2;0;1!z41!3;4243;44\x1b\\"),                   // hex macro with repeat group
+        3 => { out.extend(b"\x1b["); push_num(out, r.gen_range(0..4)); out.extend(b"*z"); }  // invoke macro
+        4 => out.extend(b"\x1bP3;0;0!z\x1b[3*z\x1b\\"),                       // macro 3 invoking itself (stored)
+        5 => out.extend(b"\x1bP0;1;0!z\x1b\\"),                               // delete all macros
+        6 => out.extend(b"\x1bPCTerm:Font:5:AAAA\x1b\\"),                     // custom font, bad payload
+        7 => out.extend(b"\x1bP0;0;0q\"1;1;4;6#0;2;0;0;0#0~~@@-~~\x1b\\"),     // tiny sixel
+        8 => out.extend(b"\x1bPq#1!5~$-!3?\x1b\\"),
+        9 => out.extend(b"\x1bPgarbage\x1b\\"),
+        10 => out.extend(b"\x1b]8;;http://a.b\x1b\\"),                        // hyperlink open
+        11 => out.extend(b"\x1b]8;;\x1b\\"),                                  // hyperlink close
+        12 => out.extend(b"\x1b]4;1;rgb:ff/00/80\x1b\\"),                     // palette set
+        13 => out.extend(b"\x1b]4;999;rgb:zz\x1b\\"),
+        14 => out.extend(b"\x1b]104\x1b\\"),
+        15 => out.extend(b"\x1b_aps string\x1b\\"),
+        16 => out.extend(b"\x1bP1;1;1!z4"),                                   // unterminated
+        17 => out.extend(b"\x1b[MFT120O3L8CDE P4 >A#<B-.\x0e"),               // music
+        18 => out.extend(b"\x1b[NMBO6B############\x0e"),
+        19 => out.extend(b"\x1b[|T255L64O0N84\x0e"),
+        20 => { out.extend(b"\x1bP"); for _ in 0..r.gen_range(0..12) { out.push(r.gen_range(0x20..0x7f)); } if r.gen_bool(0.7) { out.extend(b"\x1b\\"); } }
+        _ => { out.extend(b"\x1b]"); for _ in 0..r.gen_range(0..12) { out.push(r.gen_range(0x20..0x7f)); } if r.gen_bool(0.7) { out.extend(b"\x1b\\"); } }
+    }
+}
+
+fn printable(r: &mut StdRng, out: &mut Vec<u8>) {
+    match r.gen_range(0..8) {
+        0 => out.push(b' '),
+        1 => out.push(b'A'),
+        2 => out.push(0xDB),
+        3 => out.push(r.gen_range(0x80..=0xFF)),
+        4 => { for _ in 0..r.gen_range(1..12) { out.push(r.gen_range(0x20..0x7F)); } }
+        _ => out.push(r.gen_range(0x20..0x7F)),
+    }
+}
+
+/// one token of the ANSI family
+fn ansi_token(r: &mut StdRng, w: i32, h: i32, big: bool, out: &mut Vec<u8>) {
+    match r.gen_range(0..100) {
+        0..=24 => printable(r, out),
+        25..=34 => out.push(pick(r, b"\n\n\n\r\x0c\x08\x07\x09\x7f\x00\x0e")),
+        35..=42 => { out.push(0x1b); out.push(pick(r, b"78cDMEH0Z\\=>\x1b\n")); }
+        43..=74 => csi(r, w, h, big, out),
+        75..=82 => sgr(r, out),
+        83..=90 => strings(r, out),
+        91..=93 => { out.extend(b"\x1b["); if let Some(p) = param(r, w, h, false) { push_num(out, p); } out.push(b';'); if let Some(p) = param(r, w, h, false) { push_num(out, p); } out.push(pick(r, b"Hfr")); }
+        94..=95 => { out.extend(b"\x1b[?"); push_num(out, pick(r, &[4, 6, 7, 25, 33, 35, 69, 9, 1000, 1006, 99])); out.push(if r.gen_bool(0.5) { b'h' } else { b'l' }); }
+        96 => { out.extend(b"\x1b[4"); out.push(if r.gen_bool(0.5) { b'h' } else { b'l' }); }
+        97 => { // rectangles
+            out.extend(b"\x1b[");
+            let n = r.gen_range(3..7);
+            for k in 0..n { if k > 0 { out.push(b';'); } if let Some(p) = param(r, w, h, false) { push_num(out, p); } }
+            out.push(b'$'); out.push(pick(r, b"xz{w"));
+        }
+        98 => { out.extend(b"\x1b[0;"); push_num(out, pick(r, &[0, 1, 42, 43, 255, 9999])); out.extend(b" D"); }
+        _ => out.push(r.gen()),
+    }
+}
+
+fn frontend_token(emu: &str, r: &mut StdRng, w: i32, h: i32, big: bool, out: &mut Vec<u8>) {
+    match emu {
+        "avatar" => match r.gen_range(0..10) {
+            0 => { out.push(0x16); out.push(r.gen_range(0..10)); if r.gen_bool(0.6) { out.push(r.gen()); out.push(r.gen()); } }
+            1 => { out.push(0x16); out.push(1); out.push(r.gen()); }
+            2 => { out.push(0x16); out.push(8); out.push(r.gen_range(0..(h as u8).saturating_add(3))); out.push(r.gen_range(0..(w as u8).saturating_add(3))); }
+            3 => { out.push(0x19); out.push(r.gen_range(0x20..0x7f)); out.push(if big { r.gen() } else { r.gen_range(0..12) }); }
+            4 => { out.push(0x19); out.push(pick(r, &[0x1b, 0x16, 0x19, 0x0c, 0x0a])); out.push(r.gen_range(0..5)); }
+            5 => out.push(0x0c),
+            _ => ansi_token(r, w, h, big, out),
+        },
+        "pcboard" => match r.gen_range(0..10) {
+            0 => { out.extend(b"@X"); out.push(pick(r, b"0123456789ABCDEFabcdefGZ@")); out.push(pick(r, b"0123456789ABCDEFabcdefGZ@")); }
+            1 => out.extend(b"@CLS@"),
+            2 => out.extend(b"@@"),
+            3 => { out.push(b'@'); for _ in 0..r.gen_range(0..8) { out.push(r.gen_range(0x41..0x5b)); } if r.gen_bool(0.7) { out.push(b'@'); } }
+            4 => out.extend(b"@POS:12@"),
+            _ => ansi_token(r, w, h, big, out),
+        },
+        "ctrla" => match r.gen_range(0..10) {
+            0..=3 => { out.push(1); out.push(pick(r, b"KBGCRMYWkbgcrmyw01234567HIENL'J><|]AZ\x80\xff")); }
+            4 => { out.push(1); out.push(r.gen()); }
+            _ => ansi_token(r, w, h, big, out),
+        },
+        "renegade" => match r.gen_range(0..10) {
+            0..=2 => { out.push(b'|'); out.push(r.gen_range(b'0'..=b'9')); out.push(r.gen_range(b'0'..=b'9')); }
+            3 => { out.push(b'|'); out.push(r.gen_range(0x20..0x7f)); if r.gen_bool(0.5) { out.push(r.gen_range(0x20..0x7f)); } }
+            _ => ansi_token(r, w, h, big, out),
+        },
+        "petscii" => match r.gen_range(0..10) {
+            0..=2 => out.push(pick(r, &[0x05u8, 0x07, 0x08, 0x09, 0x0a, 0x0d, 0x0e, 0x11, 0x12, 0x13, 0x14, 0x1c, 0x1d, 0x1e, 0x1f, 0x81, 0x8d, 0x8e, 0x90, 0x91, 0x92, 0x93, 0x94, 0x95, 0x9d, 0x9e, 0x9f, 0xff, 0x02, 0x82, 0x0f, 0x8f])),
+            3 => { out.push(0x1b); out.push(r.gen_range(0x40..0x60)); }
+            4 => { out.push(0x1b); out.push(r.gen()); }
+            5 => out.push(r.gen()),
+            _ => printable(r, out),
+        },
+        "atascii" => match r.gen_range(0..10) {
+            0..=2 => out.push(pick(r, &[0x1cu8, 0x1d, 0x1e, 0x1f, 0x7d, 0x7e, 0x7f, 0x9b, 0x9c, 0x9d, 0x9e, 0x9f, 0xfd, 0xfe, 0xff])),
+            3 => { out.push(0x1b); out.push(r.gen()); }
+            4 => out.push(r.gen()),
+            _ => printable(r, out),
+        },
+        "viewdata" | "mode7" => match r.gen_range(0..10) {
+            0..=3 => out.push(r.gen_range(0..0x20)),
+            4 => { out.push(0x1b); out.push(r.gen_range(0x40..0x60)); }
+            5 => { out.push(0x1b); out.push(r.gen()); }
+            6 => out.push(r.gen()),
+            7 => { for _ in 0..r.gen_range(1..45) { out.push(r.gen_range(0x20..0x80)); } }
+            _ => printable(r, out),
+        },
+        "ascii" => match r.gen_range(0..10) {
+            0..=3 => out.push(pick(r, b"\n\r\x0c\x08\x07\x00\xff\x09\x1b\x7f")),
+            4 => out.push(r.gen()),
+            _ => printable(r, out),
+        },
+        _ => ansi_token(r, w, h, big, out),
+    }
+}
+
+/// Sizes: the small ones exhaustively often, the standard ones, and seeded samples of 1..=132 x 1..=60.
+fn pick_size(r: &mut StdRng, emu: &str) -> (i32, i32) {
+    if emu == "viewdata" || emu == "mode7" {
+        return (40, 24);
+    }
+    match r.gen_range(0..10) {
+        0..=3 => (r.gen_range(1..=5), r.gen_range(1..=4)),
+        4 => (80, 25),
+        5 => pick(r, &[(40, 24), (132, 60), (1, 60), (132, 1), (80, 50), (2, 2), (9, 3)]),
+        6 | 7 => (r.gen_range(1..=16), r.gen_range(1..=8)),
+        _ => (r.gen_range(1..=132), r.gen_range(1..=60)),
+    }
+}
+
+pub fn gen_case(seed: u64, k: u64, emu: &str, big: bool, full: bool) -> Case {
+    let mut r = rng(seed, 100_000 + k);
+    let (w, h) = pick_size(&mut r, emu);
+    let music = if emu == "ansi" { if r.gen_bool(0.6) { 0 } else { r.gen_range(1..4) } } else { 0 };
+    let kind = r.gen_range(0..10);
+    let mut bytes = vec![];
+    let mut toks = vec![];
+    let ntok = match kind { 0 => r.gen_range(1..4), 1..=6 => r.gen_range(4..60), 7 | 8 => r.gen_range(60..400), _ => 0 };
+    for _ in 0..ntok {
+        frontend_token(emu, &mut r, w, h, big, &mut bytes);
+        toks.push(bytes.len());
+    }
+    if kind == 9 {
+        // uniformly random bytes
+        for _ in 0..r.gen_range(1..2048) { bytes.push(r.gen()); }
+    } else if r.gen_bool(0.15) && !bytes.is_empty() {
+        // truncate / corrupt
+        let cut = r.gen_range(0..bytes.len());
+        bytes.truncate(cut + 1);
+        if r.gen_bool(0.5) { let i = r.gen_range(0..bytes.len()); bytes[i] = r.gen(); }
+    }
+    let small = w <= 16 && h <= 8;
+    Case { id: format!("g{seed}-{k}"), emu: emu.to_string(), music, w, h, alloc: r.gen_bool(0.5), bs: r.gen_bool(0.3), full: full && small, bytes, toks }
+}
+
+// ------------------------------------------------------------------------------------------------ entry point
+pub fn term(a: &Args) {
+    let out_path = a.str("out", "work/term/trace.ndjson");
+    let progress = a.str("progress", &format!("{out_path}.progress"));
+    let start = a.usize("start", 0);
+    let seed = a.u64("seed", 0);
+    let limit_s = a.u64("case-timeout", 20);
+    let mem_mb = a.u64("mem-mb", 4096);
+    let only_emu = a.str("emu", "all");
+    let big = a.has("big");
+    let full = a.has("full");
+    set_mem_limit(mem_mb);
+
+    // collect cases
+    let mut cases: Vec<Case> = vec![];
+    if a.has("cases") {
+        let text = std::fs::read_to_string(a.str("cases", "")).expect("cases file");
+        for line in text.lines() {
+            if let Ok(v) = serde_json::from_str::<Value>(line) {
+                cases.push(Case::from_json(&v));
+            }
+        }
+    }
+    let n_gen = a.u64("gen", 0);
+    let first_k = a.u64("gen-from", 0);
+    for k in 0..n_gen {
+        let emu = if only_emu == "all" { EMUS[((k + first_k) % 10) as usize] } else { only_emu.as_str() };
+        cases.push(gen_case(seed, first_k + k, emu, big, full));
+    }
+    if a.has("dump-cases") {
+        let mut o = Out::create(&a.str("dump-cases", ""));
+        for c in &cases { o.ev(&c.to_json()); }
+        o.flush();
+        return;
+    }
+
+    // watchdog: kills the process when one case runs too long (the orchestrator restarts after it)
+    let clock = Arc::new(AtomicU64::new(0));       // bumped per character
+    let case_no = Arc::new(AtomicU64::new(u64::MAX));
+    {
+        let case_no = case_no.clone();
+        let progress = progress.clone();
+        std::thread::spawn(move || {
+            let mut last = (u64::MAX, Instant::now());
+            loop {
+                std::thread::sleep(Duration::from_millis(100));
+                let c = case_no.load(Ordering::Relaxed);
+                if c == u64::MAX { continue; }
+                if c != last.0 { last = (c, Instant::now()); continue; }
+                if last.1.elapsed() > Duration::from_secs(limit_s) {
+                    let _ = std::fs::write(&progress, format!("{c} timeout\n"));
+                    unsafe { libc::_exit(3) };
+                }
+            }
+        });
+    }
+
+    let mut out = if start > 0 { Out::append(&out_path) } else { Out::create(&out_path) };
+    let mut fed_total = 0usize;
+    for (i, c) in cases.iter().enumerate().skip(start) {
+        let _ = std::fs::write(&progress, format!("{i} running\n"));
+        case_no.store(i as u64, Ordering::Relaxed);
+        let mut evs = vec![];
+        let t0 = Instant::now();
+        fed_total += run_case(c, &mut evs, Some(&clock));
+        let ms = t0.elapsed().as_millis() as u64;
+        if let Some(last) = evs.last_mut() {
+            last["case_ms"] = json!(ms);
+        }
+        for e in &evs { out.ev(e); }
+        out.flush();
+    }
+    case_no.store(u64::MAX, Ordering::Relaxed);
+    let _ = std::fs::write(&progress, format!("{} done\n", cases.len()));
+    let _ = std::io::stderr().write_all(format!("term: {} cases, {} characters, {} events\n", cases.len() - start.min(cases.len()), fed_total, out.n).as_bytes());
+}
+
+pub fn set_mem_limit(mb: u64) {
+    if mb == 0 { return; }
+    unsafe {
+        let lim = libc::rlimit { rlim_cur: mb * 1024 * 1024, rlim_max: mb * 1024 * 1024 };
+        libc::setrlimit(libc::RLIMIT_AS, &lim);
+    }
 }
